@@ -796,3 +796,58 @@ Definition resume_session (a : assets) (s : session) (r : resume) (tmo : text) :
               end
           end
     end.
+
+(* ---- resume, in state-passing form ---------------------------------------------------------------------- *)
+
+(* The same function written as the Go method is: the receiver's state is threaded through and returned in
+   EVERY case, also when the method returns an engine error.  Every `s.x = ...` of Resume / tryToResume
+   appears below at the place where the Go code has it (`s.status = active`, resume.Apply, the loop); before
+   the three engine-error returns there is no assignment to the session (prepareForSprint only fills the
+   transient parentRun, which is not part of the session's JSON).  proofs/EngineProofs.v proves that
+   [resume_session] is this function with the state dropped, and C10's "a rejected resume leaves the session
+   untouched" is a theorem about the state returned here; model/EngineCorr.v continues a history after a
+   rejected resume with the session returned here and compares it with the real one. *)
+Inductive resume_outcome := OErr (code : N) | ORes (r : result_).
+
+Definition state_of (dflt : st) (r : result_) : st :=
+  match r with ROk x => x | RGoError x => x | _ => dflt end.
+
+Definition resume_m (a : assets) (s : session) (r : resume) (tmo : text) : st * resume_outcome :=
+  let x := {| session_ := s; sprint_ := empty_sprint |} in          (* sprint := newEmptySprint() *)
+  if negb (sstatus_eqb (s_status s) SWaiting) then (x, OErr 101)
+  else
+    match waiting_run s with
+    | None => (x, OErr 102)
+    | Some wi =>
+        let failed (c : fail_code) (x : st) := let x' := fail_session x wi c in (x', ORes (ROk x')) in
+        let flow_missing := match get_run s wi with
+                            | Some rn => match get_flow a (r_flow rn) with None => true | Some _ => false end
+                            | None => true
+                            end in
+        if flow_missing then failed FMissingFlow x
+        else if (Z.of_nat (count_waits s) >=? max_resumes (a_opts a))%Z then failed FMaxResumes x
+        else
+          match path_location a s wi with
+          | None => failed FNoLocation x
+          | Some (pos, n) =>
+              match n_router n with
+              | Some {| rt_wait := Some w |} =>
+                  if negb (accepts w r) then (x, OErr 103)
+                  else
+                    let sr := Some (wi, pos) in
+                    let x := with_session x (fun s => set_status s SActive) in      (* s.status = active *)
+                    let x := apply_resume x wi sr r in                                (* resume.Apply *)
+                    match find_resume_exit a x wi (is_timeout r) tmo with
+                    | FreErr x' => failed FRouteError x'
+                    | FreGoErr x' => (x', ORes (RGoError x'))
+                    | FrePanic => (x, ORes RPanic)
+                    | FreOk x' e op =>
+                        let res := continue_until_wait (fuel_for a (session_ x')) a x'
+                                     {| l_cur := Some wi; l_node := Some (match get_run s wi with Some rn => r_flow rn | None => 0 end, n_id n);
+                                        l_exit := e; l_operand := op; l_step := sr; l_steps := 0%Z; l_trigger := false |} in
+                        (state_of x' res, ORes res)
+                    end
+              | _ => failed FNoWait x
+              end
+          end
+    end.
